@@ -95,6 +95,12 @@ CHECKS = [
         "text": "Every class with up to 4 (quick) / 5 (thorough) elements (fields then 0-2 serialized methods) and every per-element ordering specification from {none, order(-1), order(1), order(999), after=x, before=x for every other x} with acyclic anchors, plus class-level order([...]) permutations, order({...}) overrides and inheritance, is compiled from generated source; the key order of serialize(), of the properties of both schemas and of the GraphQL object type must be the reference permutation (projected on the elements of the view).",
         "note": "Cyclic specifications are excluded and counted. The reference function is written from the property statement.",
     },
+    {
+        "id": "C10", "engine": "E1", "design_ref": "DESIGN.md §5 C10",
+        "technique": "exhaustive enumeration of generated validator classes x data states x pass/fail vectors, observing the invoked validators through their side effects, against a reference gating rule",
+        "text": "Every class of the space (3 fields; 1-2 validators, 3 in thorough, each with every non-empty dependency subset read directly / through a method / through a property, kind plain / validator(field) / validator(discard=g), raise / yield / yield-with-path style, with and without inheritance) x every datum assigning each field absent / valid / invalid x every pass/fail vector x {identity, camelCase} aliaser: the exact sequence of validators invoked, the sorted error list and the construction verdict must equal the 25-line reference rule; termination is enforced by a watchdog with recursion limit 300.",
+        "note": "Order between a class and its bases is the library's documented MRO order. Validators are generated source (the dependency finder needs inspect.getsource).",
+    },
 ]
 _PENDING = "check not built yet in this round (planned, see DESIGN.md §5); not claimed until it runs green"
-NOT_APPLICABLE = [{"property_id": f"C{i:02d}", "reason": _PENDING} for i in range(4, 20) if i not in (4, 5, 6, 7, 8, 9, 13, 14, 15, 16, 17, 18)]
+NOT_APPLICABLE = [{"property_id": f"C{i:02d}", "reason": _PENDING} for i in range(4, 20) if i not in (4, 5, 6, 7, 8, 9, 10, 13, 14, 15, 16, 17, 18)]
